@@ -105,7 +105,7 @@ def run(R):
     # is checked on every accepting path — the validate-compare-store rules of C07 are evaluated here too
     from props.C07 import merge_rules
     merge_rules(R, "C04.signed")
-    R.who_may_call("C04.sinks", [PUT], STORE_FNS, floor=4, descr="put_local_record is called only from the four typed store functions")
+    R.who_may_call("C04.sinks", [PUT], STORE_FNS, floor=2, descr="put_local_record is called only from the four typed store functions")
 
     # (2) key provenance per store function
     for nm, (fn, content_param) in {"chunk": (STORE["chunk"], 1), "pad": (STORE["pad"] + "::{closure#0}", 1),
